@@ -115,16 +115,31 @@ func (m *Machine) callbackModel(st *State, fr *Frame, name string, sig *types.Si
 }
 
 func (m *Machine) addEvent(st *State, name string, args, rets []Value) *Event {
-	ev := &Event{Name: name, Args: args, Rets: rets, Seqs: map[int]*SeqV{}}
+	ev := m.newEvent(st, name, args)
+	ev.Rets = rets
+	st.events = append(st.events, ev)
+	m.trace(st, "ev:"+name)
+	return ev
+}
+
+// newEvent builds an event record (argument contents are snapshotted now) without appending it.
+func (m *Machine) newEvent(st *State, name string, args []Value) *Event {
+	ev := &Event{Name: name, Args: args, Seqs: map[int]*SeqV{}, Snaps: map[int]*SliceSnap{}}
 	for i, a := range args {
 		if s, ok := a.(*Slice); ok {
+			func() {
+				defer func() { recover() }()
+				ss := &SliceSnap{Len: s.Len, Off: s.Off, Elem: s.Elem}
+				for _, l := range m.ts.Leaves(s.Elem) {
+					ss.Arrs = append(ss.Arrs, m.elemArr(st, s.Elem, s.Arr, l))
+				}
+				ev.Snaps[i] = ss
+			}()
 			if b, isB := s.Elem.Underlying().(*types.Basic); isB && b.Kind() == types.Uint8 {
 				ev.Seqs[i] = m.seqOfSlice(st, s)
 			}
 		}
 	}
-	st.events = append(st.events, ev)
-	m.trace(st, "ev:"+name)
 	return ev
 }
 
@@ -689,6 +704,17 @@ func init() {
 			}
 			return s
 		},
+		"evSlice": func(m *Machine, st *State, fr *Frame, instr ssa.Instruction, fn *ssa.Function, args []Value) Value {
+			if st.opaque != 0 {
+				panic(unsupported("evSlice on a callee's invisible trace"))
+			}
+			e := m.findEvent(st, constStringArg(instr, 0), m.constIntArg(instr, 1, args[1]))
+			if e == nil || e.Snaps[m.constIntArg(instr, 2, args[2])] == nil {
+				m.problem("evSlice: no such event / slice argument: %s", constStringArg(instr, 0))
+				return &SliceSnap{Len: m.ts.IdxConst(-1), Off: m.ts.IdxConst(0)}
+			}
+			return e.Snaps[m.constIntArg(instr, 2, args[2])]
+		},
 		"evArg": func(m *Machine, st *State, fr *Frame, instr ssa.Instruction, fn *ssa.Function, args []Value) Value {
 			if st.opaque != 0 {
 				return m.opaqueEvValue(st, fn, "calleeEvArg", constStringArg(instr, 0), args[1].(*Term), args[2].(*Term))
@@ -1195,8 +1221,8 @@ func (m *Machine) recCall(st *State, fn *ssa.Function, args []Value) []Value {
 		}
 		app = m.ts.Unflatten(rt, &terms)
 	}
-	if m.recDepth[fn] > 0 {
-		return []Value{app}
+	if m.recDepth[fn] > 1 {
+		return []Value{app} // fuel: the defining equation is unfolded to depth 2
 	}
 	// unfold once
 	inst := fmt.Sprintf("%s|%v", name, termIDs(key))
